@@ -21,9 +21,13 @@ def ser(e, ast):
             return ["P", "str", v]
         return ["P", type(v).__name__, repr(v)]
     if isinstance(e, ast.ComponentRef):
+        if not e.child and e.indices != [[None]] and len(e.indices) == 1 and all(i is not None for i in e.indices[0]):
+            return ["VI", e.name, [ser(i, ast) for i in e.indices[0]]]      # subscripted name A[i, j]
         if e.child or e.indices != [[None]]:
             return ["?", "ComponentRef with child/indices"]
         return ["V", e.name]
+    if isinstance(e, ast.Array):
+        return ["A", [ser(v, ast) for v in e.values]]                         # array literal {a, b}
     if isinstance(e, ast.IfExpression):
         return ["IF", [ser(c, ast) for c in e.conditions], [ser(c, ast) for c in e.expressions]]
     if isinstance(e, ast.Expression):
